@@ -222,7 +222,13 @@ class MonitoredProjectionSolver:
                                   f"{self.name} returned with |c(q)| = {res!r} >= constraint_tol {tol}")
                     )
             # Lagrange-multiplier form of the correction
-            if np.all(np.isfinite(state.pos)) and np.all(np.isfinite(state.mom)):
+            in_range = (
+                np.all(np.isfinite(state.pos)) and np.all(np.isfinite(state.mom))
+                and max(np.max(np.abs(pos0)), np.max(np.abs(mom0)), np.max(np.abs(prev_pos))) < 1e8
+            )
+            if not in_range:
+                ctx.count("lagrange_out_of_range")
+            if in_range:
                 try:
                     prevs = ChainState(pos=prev_pos, mom=np.zeros_like(prev_pos), dir=1)
                     Jp = np.asarray(system.jacob_constr(prevs), dtype=float)
@@ -233,9 +239,9 @@ class MonitoredProjectionSolver:
                     dmom = mom0 - np.asarray(state.mom)
                     lam, *_ = np.linalg.lstsq(AJ, dpos, rcond=None)
                     fit = float(np.max(np.abs(AJ @ lam - dpos)))
-                    scale = 1e-7 * (1.0 + float(np.max(np.abs(dpos)))) + 1e-12
+                    scale = 1e-7 * (1.0 + float(np.max(np.abs(dpos)))) + 1e-12 + 1e-12 * float(np.max(np.abs(pos0)))
                     momfit = float(np.max(np.abs(np.sign(time_step) * (BJ @ lam) - dmom)))
-                    mscale = 1e-7 * (1.0 + float(np.max(np.abs(dmom)))) * max(1.0, float(np.linalg.cond(AJ))) + 1e-12
+                    mscale = (1e-7 * (1.0 + float(np.max(np.abs(dmom)))) + 1e-12 * float(np.max(np.abs(mom0)))) * max(1.0, float(np.linalg.cond(AJ))) + 1e-12
                     ctx.count("lagrange_checks")
                     if fit > scale or momfit > mscale:
                         ctx.violations.append(
